@@ -250,8 +250,8 @@ pub async fn run_one(seed: u64, recover_mode: bool) -> Vec<Value> {
     drain_net_log(&mut rig);
     let still = rig.is_migrating("c1").await;
     rig.emit(json!({"kind": "converged_check", "rounds": rounds, "still_migrating": still}));
-    emit_roles(&mut rig).await;
     rig.observe("stable", true).await;
+    emit_roles(&mut rig).await;
     rig.emit(json!({"kind": "ctl_end"}));
     rig.out
 }
